@@ -65,7 +65,8 @@ def _build(ctx, st, P, bad=None):
         else:
             f1.qualifiers.pop("citation")
         recs.append(st.record.CircularRecord(st.Seq("ACGTTGCAAGCT"), id=("Exported" if P.get("ids") == "same" else "el%d" % i), name="n%d" % i, description="d",
-                                             dbxrefs=["x:%d" % i], features=[f1, f2], annotations=ann))
+                                             dbxrefs=["x:%d" % i], features=[f1, f2], annotations=ann,
+                                             letter_annotations={"phred": [30 + j + i for j in range(N)]}))
     if P.get("container") == "tuple":
         # qualifier values written by a script as tuples instead of lists (Biopython accepts any container); which
         # records do is symbolic
@@ -75,10 +76,13 @@ def _build(ctx, st, P, bad=None):
     if P.get("alias") == "shared-list":
         # two features of one record share their citation list object (as a feature copied with qualifiers.copy() does)
         recs[0].features[1].qualifiers["citation"] = recs[0].features[0].qualifiers["citation"]
-    mods = [Mod(recs[i], st.Seq(starts[i]), st.Seq(ends[i]), SP) for i in range(m)]
+    # where the structure lies on the plasmid: in the middle (default), from the very first letter, or starting exactly
+    # one turn later (both make the rotation to the start of the match a rotation by a multiple of the length)
+    sp = {"middle": SP, "at-origin": module_spans(0, 2, 6, 8), "one-turn-later": module_spans(N, N + 2, N + 6, N + 8)}[P.get("spans", "middle")]
+    mods = [Mod(recs[i], st.Seq(starts[i]), st.Seq(ends[i]), sp) for i in range(m)]
     if P.get("alias") == "twice":
         mods.append(mods[0])  # the very same module object supplied twice
-    vec = Vec(recs[m], st.Seq(up), st.Seq(down), SP)
+    vec = Vec(recs[m], st.Seq(up), st.Seq(down), sp if P.get("spans") else SP)
     return vec, mods, recs
 
 
@@ -162,6 +166,11 @@ def obligations(tier, seed):
     for fault in tier_pick(tier, (0,), (0, 1, 3)):
         obs.append(Ob("purity m=2 citations-everywhere=True, all records share one id fault-at=%d" % fault, ob_pure,
                       dict(m=2, refs=True, sympos=0, ids="same", fault=fault), samples=6, cost=800, group="ids"))
+    for spans in ("at-origin", "one-turn-later"):
+        for sympos in (0, 1):
+            obs.append(Ob("purity m=1 citations-everywhere=False symbolic-feature-in=el%d, structure %s" % (sympos, spans), ob_pure,
+                          dict(m=1, refs=False, sympos=sympos, spans=spans, fault=0), samples=10, cost=50, group="spans",
+                          expect_witness=("product",)))
     obs.append(Ob("purity m=1 citations-everywhere=True, some citation qualifiers are tuples", ob_pure,
                   dict(m=1, refs=True, sympos=0, container="tuple", fault=0), samples=10, cost=60, group="containers",
                   expect_witness=("product",)))
